@@ -641,7 +641,38 @@ func budgetWitness(g []*ssa.Function) (bool, string) {
 					}
 					a, isU := call.Call.Args[pi].(*ssa.UnOp)
 					if !isU || a.Op != token.MUL {
-						okAll = false
+						// the budget lives in a plain local (nothing captures it): the value passed is the
+						// parameter as updated so far — the web of phis it comes from holds the parameter and
+						// this call's own updated total (it is assigned back and carried to the next call)
+						seen := map[ssa.Value]bool{}
+						hasPrm, hasBack := false, false
+						var walk func(v ssa.Value)
+						walk = func(v ssa.Value) {
+							if seen[v] || len(seen) > 256 {
+								return
+							}
+							seen[v] = true
+							switch x := v.(type) {
+							case *ssa.Parameter:
+								if x == prm {
+									hasPrm = true
+								}
+							case *ssa.Phi:
+								for _, e := range x.Edges {
+									walk(e)
+								}
+							case *ssa.Extract:
+								if x.Tuple == ssa.Value(call) {
+									if eb, ok := x.Type().Underlying().(*types.Basic); ok && eb.Kind() == types.Int64 {
+										hasBack = true
+									}
+								}
+							}
+						}
+						walk(call.Call.Args[pi])
+						if !(h == f && hasPrm && hasBack) {
+							okAll = false
+						}
 						return
 					}
 					cell := a.X
